@@ -34,7 +34,7 @@ def free_port():
 
 
 class Server:
-    def __init__(self, settings, source="file", workdir=None):
+    def __init__(self, settings, source="file", workdir=None, extra_env=None):
         self.settings = dict(settings)
         self.settings.setdefault("interface", "127.0.0.1")
         self.settings.setdefault("seed", SEED)
@@ -56,6 +56,8 @@ class Server:
             for k, v in self.settings.items():
                 env[ENVNAMES[k]] = str(v)
             arg = "ENV"
+        if extra_env:
+            env.update(extra_env)
         self.errpath = tempfile.mkstemp(suffix=".log", dir=workdir or vlib.BUILD)[1]
         self.errf = open(self.errpath, "w")
         self.p = subprocess.Popen([vlib.SERVER_BIN, arg], stdout=self.errf, stderr=subprocess.STDOUT, env=env)
@@ -243,6 +245,71 @@ def closed_loop(port, r_seed, nclients, rounds, stop_evt=None, per_timeout=4.0, 
     return results
 
 
+def pipelined_clients(port, r_seed, nclients, depth, rounds, per_timeout=4.0):
+    """clients that keep several requests in flight: each sends `depth` requests (mixed protocols, own
+    nonces) back to back from ONE socket, then collects the replies and credits each to the request
+    whose nonce it carries. Returns (proto, request, [replies], time) like closed_loop."""
+    import random
+    results = []
+    lock = threading.Lock()
+
+    def one(ci):
+        r = random.Random(r_seed * 7919 + ci)
+        s = socket.socket(socket.AF_INET, socket.SOCK_DGRAM)
+        s.connect(("127.0.0.1", port))
+        mine = []
+        for k in range(rounds):
+            batch = []
+            for j in range(depth):
+                proto = "Google" if (ci + k + j) % 2 else "RfcDraft13"
+                nonce = bytes(r.getrandbits(8) for _ in range(64 if proto == "Google" else 32))
+                req = rt.mk_classic(nonce) if proto == "Google" else rt.mk_ietf(nonce, 1024)
+                batch.append((proto, req, [], nonce))
+            for _, req, _, _ in batch:
+                try:
+                    s.send(req)
+                except OSError:
+                    pass
+            deadline = time.time() + per_timeout
+            while any(not b[2] for b in batch):
+                remaining = deadline - time.time()
+                if remaining <= 0:
+                    break
+                s.settimeout(remaining)
+                try:
+                    data = s.recv(4096)
+                except (socket.timeout, OSError):
+                    break
+                hit = [b for b in batch if b[3] in data]
+                if hit:
+                    hit[0][2].append(data)
+                else:
+                    mine.append(("EXTRA", b"", [data], time.time()))
+            # anything extra (duplicates) shortly after
+            s.settimeout(0.1)
+            try:
+                while True:
+                    data = s.recv(4096)
+                    hit = [b for b in batch if b[3] in data]
+                    if hit:
+                        hit[0][2].append(data)          # a duplicate reply: seen as 2 responses for one request
+                    else:
+                        mine.append(("EXTRA", b"", [data], time.time()))
+            except (socket.timeout, OSError):
+                pass
+            mine.extend((p, rq, reps, time.time()) for p, rq, reps, _ in batch)
+        s.close()
+        with lock:
+            results.extend(mine)
+
+    ths = [threading.Thread(target=one, args=(i,)) for i in range(nclients)]
+    for t in ths:
+        t.start()
+    for t in ths:
+        t.join()
+    return results
+
+
 def verify_pairs(ctx, pairs, rep_base, what):
     """(proto, request, reply) triples through the Coq spec verifier + dalek oracle"""
     lines = ["vresp %s %s %s %s" % (p, PK, rt.hx(rq), rt.hx(rp)) for p, rq, rp in pairs]
@@ -286,18 +353,24 @@ def run_c18(ctx):
     plan += [(1, 32, {"batch_size": 2}, rounds), (4, 48, {"batch_size": 2}, rounds),
              (1, 32, {"batch_size": 4, "_burst": 1}, 5), (4, 48, {"batch_size": 2, "_burst": 1}, 5),
              (2, 64, {"batch_size": 64, "_burst": 1}, 5),
+             # clients with several requests in flight from one socket (same source address in one batch)
+             (1, 6, {"batch_size": 64, "_pipe": 4}, 4), (4, 12, {"batch_size": 8, "_pipe": 3}, 4),
              (4, 24, {"batch_size": 64, "client_stats": "on", "persistence_directory": workdir, "status_interval": 1}, 60),
              (2, 16, {"batch_size": 8, "client_stats": "on", "persistence_directory": workdir, "status_interval": 2}, 60)]
     for nw, nc, extra, rounds in plan:
         extra = dict(extra)
         burst = bool(extra.pop("_burst", 0))
+        pipe = int(extra.pop("_pipe", 0))
         srv = Server(dict({"num_workers": nw}, **extra), workdir=workdir)
         rep = {"cmd": "load", "settings": {k: str(v) for k, v in srv.settings.items()}, "clients": nc, "rounds": rounds}
         try:
             if not srv.wait_ready():
                 ctx.violation("property", "server with %d workers did not start serving" % nw, dict(rep, log=srv.log()[-1500:])); continue
-            res = closed_loop(srv.port, ctx.seed * 100 + nw, nc, rounds, barrier=burst, freeze_pid=srv.p.pid if burst else None)
-            rep["burst"] = burst
+            if pipe:
+                res = pipelined_clients(srv.port, ctx.seed * 100 + nw, nc, pipe, rounds)
+            else:
+                res = closed_loop(srv.port, ctx.seed * 100 + nw, nc, rounds, barrier=burst, freeze_pid=srv.p.pid if burst else None)
+            rep["burst"] = burst; rep["in_flight_per_client"] = pipe
             th = srv.threads()
             workers = sorted({t for t in th if t.startswith("worker-")})   # the timer thread of each worker shares its name
             if len(workers) != nw:
@@ -464,9 +537,57 @@ def run_c15(ctx):
         ctx.nontriv("health-burst:" + sess[1])
         ctx.traces_validated += 1
     ctx.sample({"example.cfg": outs[0]["settings"], "threads": outs[0].get("threads_end"), "health_burst": outs[0].get("health_burst")})
+    health_accept_fault(ctx, workdir)
     import shutil
     shutil.rmtree(workdir, ignore_errors=True)
     proof_verdict(ctx)
+
+
+def health_accept_fault(ctx, workdir):
+    """a fault at one point: a health-check connection arrives while accept() fails WITHOUT consuming it
+    (EMFILE — the process is at its descriptor limit). Time service must continue on every worker; once the
+    limit is lifted the health port answers again."""
+    import resource
+    srv = Server({"num_workers": 2, "health_check_port": "auto"}, workdir=workdir)
+    rep = {"cmd": "health-accept-fault", "settings": {k: str(v) for k, v in srv.settings.items()}}
+    try:
+        if not srv.wait_ready():
+            ctx.violation("property", "server with a health port did not start serving", dict(rep, log=srv.log()[-800:])); return
+        pid = srv.p.pid
+        nfds = len(os.listdir("/proc/%d/fd" % pid))
+        old = resource.prlimit(pid, resource.RLIMIT_NOFILE)
+        resource.prlimit(pid, resource.RLIMIT_NOFILE, (nfds, old[1]))        # the next accept() fails with EMFILE
+        conns = []
+        try:
+            for _ in range(2):
+                try:
+                    conns.append(socket.create_connection(("127.0.0.1", srv.health), timeout=1.0))
+                except OSError:
+                    pass
+            time.sleep(0.4)
+            res = closed_loop(srv.port, ctx.seed * 31 + 5, 12, 3, per_timeout=1.5)
+        finally:
+            resource.prlimit(pid, resource.RLIMIT_NOFILE, old)
+            for c in conns:
+                try:
+                    c.close()
+                except OSError:
+                    pass
+        answered = sum(1 for p, rq, reps, _ in res if p != "EXTRA" and len(reps) == 1)
+        total = sum(1 for p, rq, reps, _ in res if p != "EXTRA")
+        ctx.evaluations += total
+        if answered != total:
+            ctx.violation("property", "while accept() on the health-check port failed (EMFILE) the time service answered %d of %d requests" % (answered, total),
+                          dict(rep, log=srv.log()[-600:]))
+            return
+        time.sleep(0.2)
+        later = health_probe(srv.health, 3, burst=False)
+        if later != 3:
+            ctx.violation("property", "health-check port answered %d/3 connections after the descriptor limit was lifted" % later, rep); return
+        ctx.nontriv("health-accept-fault")
+        ctx.traces_validated += 1
+    finally:
+        rc, dt, log = srv.stop()
 
 
 # ------------------------------------------------------------------ C19
@@ -492,6 +613,12 @@ def run_c19(ctx):
     cases.append((signal.SIGTERM, 2, False, "idle", 7.0))
     cases.append((signal.SIGINT, 1, True, "idle", 7.0))
     cases.append((signal.SIGTERM, 4, False, "flood", 0.2))
+    # a worker that has only seen datagrams it rejects (requests counted, nothing sent) when the signal comes
+    cases.append((signal.SIGTERM, 1, False, "junk", 0.2))
+    cases.append((signal.SIGINT, 2, True, "junk", 0.2))
+    # a TCP peer connected to the health-check port that has sent nothing / half a request when the signal comes
+    cases.append((signal.SIGTERM, 1, False, "halfopen", 0.2))
+    cases.append((signal.SIGINT, 2, False, "halfopen", 0.3))
     if ctx.thorough:
         cases += [(signal.SIGINT, 1, False, "flood", 0.2), (signal.SIGTERM, 16, True, "flood", 0.3)]
     known = vlib.load_known("C19")
@@ -506,9 +633,12 @@ def run_c19(ctx):
                 si = None
             if si is not None:
                 settings["status_interval"] = si
+        if mode == "halfopen":
+            settings["health_check_port"] = "auto"
         srv = Server(settings, workdir=workdir)
         out = {"case": [int(sig), nw, cs, mode, delay]}
         flood = None
+        peers = []
         stop_evt = threading.Event()
         res = []
         try:
@@ -519,6 +649,21 @@ def run_c19(ctx):
                 th.start()
             elif mode == "flood":
                 flood = subprocess.Popen([vlib.CLIENT_BIN, "127.0.0.1", str(srv.port), "-s"], stdout=subprocess.DEVNULL, stderr=subprocess.DEVNULL)
+            elif mode == "junk":
+                js = [socket.socket(socket.AF_INET, socket.SOCK_DGRAM) for _ in range(6)]
+                for k in range(30):
+                    js[k % 6].sendto(bytes([k]) * (1024 if k % 3 else 700), ("127.0.0.1", srv.port))
+                for x in js:
+                    x.close()
+            elif mode == "halfopen" and srv.health:
+                for half in (b"", b"GET /health HTTP/1.1\r\nHost: x"):
+                    try:
+                        c = socket.create_connection(("127.0.0.1", srv.health), timeout=1.5)
+                        if half:
+                            c.send(half)
+                        peers.append(c)
+                    except OSError:
+                        pass
             time.sleep(delay)
             rc, dt, log = srv.stop(sig=sig, timeout=5.0 if mode != "flood" else 3.0)
             stop_evt.set()
@@ -526,6 +671,11 @@ def run_c19(ctx):
                 th.join()
             out.update(rc=rc, dt=dt, log=log)
         finally:
+            for c in peers:
+                try:
+                    c.close()
+                except OSError:
+                    pass
             if flood:
                 flood.kill(); flood.wait()
             if srv.p.poll() is None:
